@@ -26,9 +26,13 @@ def tiers_for(tier):
 def gen_values(work, dense):
     vals = os.path.join(work, "values.ndjson")
     cfg = os.path.join(work, "ScalarGen.cfg")
+    mined = os.path.join(work, "mined.ndjson")
+    with open(mined, "w") as f:
+        for m in vlib.mined_constants():
+            f.write(json.dumps({"w": [(m >> (8 * i)) & 255 for i in range(8)]}) + "\n")
     with open(cfg, "w") as f:
         f.write("INIT Init\nNEXT Next\nCONSTANTS Dense = %d\n" % dense)
-    r = vlib.tlc_or_broken("ScalarGen.tla", cfg, env={"VALUES": vals}, workers=1, xmx="4g")
+    r = vlib.tlc_or_broken("ScalarGen.tla", cfg, env={"VALUES": vals, "MINED": mined}, workers=1, xmx="4g")
     if not os.path.exists(vals) or vlib.count_lines(vals) < 500:
         raise Broken("ScalarGen produced no boundary domain")
     return vals, r
@@ -111,20 +115,20 @@ def check_rt(pid, tier):
     work = vlib.scratch(pid)
     model = Model()
     try:
-        dense = 300 if tier == "quick" else 3000
+        dense = 300 if tier == "quick" else 1000
         vals, r = gen_values(work, dense)
         model.add("ScalarGen", r)
         if pid == "C01":
             model_formats(vals, model, ["RoundTrip", "LenAgrees", "FixedRoundTrip", "BoundedReader", "ZigZagRT"])
         else:
             model_formats(vals, model, ["Monotone", "Shortest", "Injective", "LenAgrees"])
-        nrand = 4000 if tier == "quick" else 400000
+        nrand = 4000 if tier == "quick" else 100000   # ~60 events per value and tier: 3*10^7 events in all
         traces = drive(work, tiers_for(tier), "rt", vals, nrand)
         if pid == "C01":
             traces += drive(work, tiers_for(tier), "sgn", vals, 300 if tier == "quick" else 30000, shards=2)
         else:
-            traces += drive(work, tiers_for(tier), "bits", vals, 2000 if tier == "quick" else 200000, shards=4)
-        events, rejects, _ = vlib.validate(traces, "ScalarTrace.tla", "ScalarTrace.cfg")
+            traces += drive(work, tiers_for(tier), "bits", vals, 2000 if tier == "quick" else 100000, shards=4)
+        events, rejects, _ = vlib.validate(traces, "ScalarTrace.tla", "ScalarTrace.cfg", timeout=3000)
         neg = vlib.negative_control(traces[0], "ScalarTrace.tla", "ScalarTrace.cfg",
                                     neg_rt_val if pid == "C01" else neg_rt)
         classes, samples = vlib.classes_of(traces, rt_key)
